@@ -640,7 +640,7 @@ func c10r5(c *Ctx) {
 	}
 	c.Check("ambient: workload-UNSET tests found", fn.Pos(), nW >= 2, "no test of the workload-level mode for UNSET in convertPeerAuthentication")
 	c.Check("ambient: inherited-level tests found", fn.Pos(), n >= 4, "fewer tests of namespace/mesh-level modes than confirmed by hand")
-	c.Floor(6)
+	c.Floor(10)
 }
 
 
